@@ -634,6 +634,12 @@ func (prop c10) Execute(sc *sim.Scenario) *sim.Outcome {
 			if est > 150 {
 				stride = (est + 149) / 150
 			}
+		} else {
+			// thorough: every later instant, but at most ~1500 placements per program
+			est := len(base.cross) * nsteps / 2
+			if est > 1500 {
+				stride = (est + 1499) / 1500
+			}
 		}
 		for k, cr := range base.cross {
 			// instants
